@@ -105,11 +105,29 @@ def rule_says_website(s):
     return False
 
 
+def rule_says_email(s):
+    """the documented rule, restated: an '@' stands somewhere before the end of the first occurrence of a top-level domain"""
+    from lib_trainer.detection_rules.tld_list import get_tld_list
+    w = s.lower()
+    if len(w) != len(s) or '.' not in w or '@' not in w:
+        return False
+    for tld in get_tld_list():
+        i = w.find(tld)
+        if i != -1 and '@' in w[:i + len(tld)]:
+            return True
+    return False
+
+
 def detect_ew(s):
     r = detect_ew_real(s)
-    if not r and rule_says_website(s):
-        N_RULE_ONLY[0] += 1
-        return 'w'          # the rule finds a website the detectors under test did not report
+    if not r:
+        # the restated rules find an address / a website where the detectors under test reported nothing
+        if rule_says_email(s):
+            N_RULE_ONLY[0] += 1
+            return 'e'
+        if rule_says_website(s):
+            N_RULE_ONLY[0] += 1
+            return 'w'
     return r
 
 
@@ -193,7 +211,7 @@ def main(pid, tier, seed):
         cands.update(rng.sample(glist, min(len(glist), 150)))
         for s in list(cands)[:120]:
             cands |= perturb(rng, s)
-        cands.update(['zzzz', 'Xq7!', 'correcthorse', ' ', 'a@b.com', 'www.x.org', 'pass@word.com1', 'www.comics.org', 'my.community.net', 'the.network.de1'])
+        cands.update(['zzzz', 'Xq7!', 'correcthorse', ' ', 'a@b.com', 'www.x.org', 'pass@word.com1', 'www.comics.org', 'my.community.net', 'the.network.de1', '1qaz@gmail.com', '1qaz@mail.com.br', '2wsx@mail.com.br', 'a@1qaz.com', 'bob@mail.com.br'])
         if pool == 'tiers':
             ws = sorted({w.lower() for w in pws if w.isalpha() and len(w) <= 6})
             for _ in range(60):
